@@ -54,8 +54,8 @@ func (e *sfEnv) server() *logic.ServerManager {
 		}
 		h := httpc("/hls/")
 		for k, v := range (M{"out_path": filepath.Join(e.tmp, "hls") + "/", "fragment_duration_ms": 3000, "fragment_num": 6,
-			"delete_threshold": 6, "cleanup_mode": 0, "use_memory_as_disk_flag": true, "sub_session_timeout_ms": 0,
-			"sub_session_hash_key": ""}) {
+			"delete_threshold": 6, "cleanup_mode": 0, "use_memory_as_disk_flag": true, "sub_session_timeout_ms": 30000,
+			"sub_session_hash_key": "q191201771"}) {
 			h[k] = v
 		}
 		conf := M{
@@ -69,12 +69,19 @@ func (e *sfEnv) server() *logic.ServerManager {
 			"rtsp":         M{"enable": true, "addr": "127.0.0.1:0", "out_wait_key_frame_flag": true},
 			"record":       M{"enable_flv": false, "flv_out_path": e.tmp + "/", "enable_mpegts": false, "mpegts_out_path": e.tmp + "/"},
 			"simple_auth":  M{"key": "k"},
-			"log":          M{"level": 5, "filename": "", "is_to_stdout": true},
+			"log":          M{"level": sfLogLevel(), "filename": "", "is_to_stdout": true},
 		}
 		raw, _ := json.Marshal(conf)
 		e.sm = logic.NewServerManager(func(option *logic.Option) { option.ConfRawContent = raw })
 	})
 	return e.sm
+}
+
+func sfLogLevel() int {
+	if os.Getenv("LALVERIF_SF_LOG") != "" {
+		return 0
+	}
+	return 5
 }
 
 func (e *sfEnv) cleanup() {
@@ -94,12 +101,16 @@ func (e *sfEnv) run(sc *sfScenario) []M {
 	evs := []M{{"ev": "reset", "sc": sc.Sc, "surf": sc.Surf, "cfg": sc.Cfg, "steps": steps}}
 	var obs []sfObs
 	end := M{"ev": "end", "sc": sc.Sc, "died": false, "confirmed": false, "panic": false, "second": false, "bystander": false,
-		"done": 0, "crash": "", "frame": "", "note": ""}
+		"done": 0, "crash": "", "frame": "", "note": "", "res": "n/a"}
 	switch sc.Surf {
 	case "rtsp", "ws", "rtp", "sdp":
 		obs = e.runRtspFamily(sc, end)
 	case "ps":
 		obs = e.runPs(sc, end)
+	case "psq":
+		obs = e.runPsq(sc, end)
+	case "udp":
+		obs = e.runUdp(sc, end)
 	case "client":
 		obs = e.runClient(sc, end)
 	case "http":
@@ -219,6 +230,7 @@ func (o *sfRtspObs) OnNewRtspSubSessionPlay(s *rtsp.SubSession) error {
 }
 
 type sfPeer struct {
+	obs      *sfRtspObs
 	conn     *sfConn
 	done     chan struct{}
 	ws       bool
@@ -233,6 +245,7 @@ func (e *sfEnv) newPeer(name string, ws bool) *sfPeer {
 	sm := e.server()
 	p := &sfPeer{conn: newSfConn(name), done: make(chan struct{}), ws: ws}
 	o := &sfRtspObs{sm: sm}
+	p.obs = o
 	sess := rtsp.NewServerCommandSession(o, p.conn, rtsp.ServerAuthConfig{}, ws, "dGhlIHNhbXBsZSBub25jZQ==")
 	sm.OnNewRtspSessionConnect(sess)
 	go func() {
@@ -259,9 +272,10 @@ func (e *sfEnv) newPeer(name string, ws bool) *sfPeer {
 }
 
 type sfResp struct {
-	Code int
-	Cseq string
-	Body string
+	Code      int
+	Cseq      string
+	Body      string
+	Transport string
 }
 
 // sfSplitOut cuts what lal wrote into RTSP responses and "$" frames.
@@ -292,7 +306,7 @@ func sfSplitOut(b []byte) (rs []sfResp, frames int) {
 		if len(b) < k+4+cl {
 			return
 		}
-		rs = append(rs, sfResp{Code: one[0].Code, Cseq: one[0].Headers["cseq"], Body: one[0].Body})
+		rs = append(rs, sfResp{Code: one[0].Code, Cseq: one[0].Headers["cseq"], Body: one[0].Body, Transport: one[0].Headers["transport"]})
 		b = b[k+4+cl:]
 	}
 	return
@@ -701,6 +715,9 @@ func (e *sfEnv) runRtspFamily(sc *sfScenario, end M) (obs []sfObs) {
 	if sc.Surf == "rtp" {
 		s := sfGoodSdp
 		s.V = vc
+		if r := sc.Cfg["rate"]; r != "" {
+			s.Vr, s.Ar = r, r // clock rate class of both tracks
+		}
 		switch ac {
 		case "aac":
 		case "pcma":
